@@ -125,6 +125,16 @@ check("C10", "the directory is a valid OCI layout equal to the API state", "expl
       "DESIGN.md §3 C10",
       [R("^TestC10$", 1000, 40000, steps=30)])
 
+check("C08", "upload sessions sequential, isolated, no residue", "exploration",
+      "rapid state machine inside a testing/synctest bubble (virtual time, true quiescence) vs session model; residue scan of _uploads",
+      "Randomised model-based search over session protocols with correct, stale, future and malformed offsets/state tokens, empty chunks, wrong digests, mount-fallback sessions, "
+      "foreign-repository use, use after end, bursts beyond RepoUploadMax and sleeps around the grace period, on both stores. Time is virtual, so eviction goroutines and expiry "
+      "timers run to completion at every synctest.Wait and the bound/expiry rules are checked exactly.",
+      "Trusted: testing/synctest of go1.26.8 (the check is built with that toolchain; file mtimes stay real inside a bubble, which this check does not depend on); the session model; "
+      "eviction choice is not specified: a session may only be reported unknown after the bound was exceeded while it was open or after it was idle for the grace period.",
+      "DESIGN.md §3 C08",
+      [R("^TestC08$", 6000, 200000, steps=40)], variant="go126")
+
 NOT_APPLICABLE = {}
 
 # --------------------------------------------------------------------------- helpers
